@@ -198,7 +198,7 @@ def toidentifier(value):
             return "neginf"
         if numpy.isnan(value):
             return "nan"
-        return value.dtype.kind + "0x" + "".join(map(hex, value.tobytes()[::-1])).replace("0x", "")
+        return value.dtype.kind + "0x" + value.tobytes()[::-1].hex()
     elif isinstance(value, numpy.complexfloating):
         return value.dtype.kind + toidentifier(value.real) + toidentifier(value.imag)
     else:
